@@ -1392,9 +1392,74 @@ def rule_u18(F):
     return r
 
 
+def rule_u19(F):
+    """Every location a report cites lies inside the cited file: the renderer works in CHARACTER positions, spans are BYTE ranges,
+    and `Span::character_range` is the one conversion.  Both ends of what it returns are sums of character counts
+    (`chars().count()` of a slice of the file); the span's byte offsets are used as slice bounds only and never arithmetically.
+    (`end = start + (self.end - self.start)` is right for ASCII and, for a span that contains multi-byte characters, points behind
+    the span - behind the end of the file for an error in the last line, where the renderer drops the excerpt.)  The reverse
+    direction of the unit discipline U1."""
+    r = RuleResult("C06.U19", "Span::character_range: both ends are sums of character counts; byte offsets of the span never enter the arithmetic", floor=2)
+    ps = [p for p in F.paths() if p.endswith("Span::character_range")]
+    if not ps:
+        r.missing("parser::meta::Span::character_range")
+        return r
+    b = F.body(ps[0])
+    if b is None or not b.mir:
+        r.missing("MIR of Span::character_range")
+        return r
+    defs = mir.Defs(b)
+    argc = b.mir["argc"]
+
+    def leaves(l, depth=0, seen=None):
+        """what a number is computed from by arithmetic and copies: calls (by callee name) and fields of the parameters"""
+        seen = seen if seen is not None else set()
+        if l in seen or depth > 30:
+            return set()
+        seen.add(l)
+        if 1 <= l <= argc:
+            return {"arg%d" % l}
+        out = set()
+        for d in defs.defs.get(l, []):
+            if d[2] == "call":
+                out.add("call:" + hir.last(mir.callee_def(d[3]) or mir.callee(d[3]) or "?"))
+            elif d[2] == "assign":
+                rv = d[3]["rv"]
+                ops = [rv[k] for k in ("o", "a", "b") if k in rv] + list(rv.get("ops") or [])
+                if "p" in rv and rv["k"] not in ("ref", "rawptr"):
+                    ops.append(["cp", rv["p"]])
+                for o in ops:
+                    if not mir.is_place_op(o):
+                        continue
+                    pl = o[1]
+                    if 1 <= pl[0] <= argc:
+                        out.add("arg%d%s" % (pl[0], "".join("." + x for x in mir.normalize_path(mir.proj_str(pl[1:])))))
+                    else:
+                        out |= leaves(pl[0], depth + 1, seen)
+        return out
+    n = 0
+    for bi, blk in enumerate(b.blocks):
+        for st in blk["stmts"]:
+            if st["k"] == "assign" and st["p"] == [0] and st["rv"]["k"] == "agg":
+                for name, o in zip(st["rv"].get("fields") or ["start", "end"], st["rv"].get("ops") or []):
+                    if not mir.is_place_op(o):
+                        continue
+                    n += 1
+                    lv = leaves(o[1][0])
+                    bytes_ = sorted(x for x in lv if x.startswith("arg"))
+                    r.inst("returned %s" % name, {"computed_from": sorted(lv)})
+                    if bytes_ or "call:count" not in lv:
+                        r.bad(b.path, "character position computed from byte offsets (%s)" % name, relfile(b.file), st.get("line") or b.line,
+                              "the `%s` of the character range is computed from %s: for a span that contains multi-byte characters it lies behind the span, for an error at the end of "
+                              "the file behind the file - the report is rendered without its source excerpt" % (name, bytes_ or sorted(lv)))
+    if n == 0:
+        r.missing("the Range returned by Span::character_range")
+    return r
+
+
 def rules(ctx):
     F = ctx["F"]
-    return [rule_u1(F), rule_u2(F), rule_u3(F), rule_u3b(F), rule_u4(F), rule_u5(F), rule_u6(F), rule_u7(F), rule_u8(F), rule_u9(F), rule_u10(F), rule_u11(F), rule_u12(F), rule_u13(F), rule_u14(F), rule_u15(F), rule_u16(F), rule_u17(F), rule_u18(F)]
+    return [rule_u1(F), rule_u2(F), rule_u3(F), rule_u3b(F), rule_u4(F), rule_u5(F), rule_u6(F), rule_u7(F), rule_u8(F), rule_u9(F), rule_u10(F), rule_u11(F), rule_u12(F), rule_u13(F), rule_u14(F), rule_u15(F), rule_u16(F), rule_u17(F), rule_u18(F), rule_u19(F)]
 
 
 def canary(C):
